@@ -81,6 +81,7 @@ Inductive expr :=
 | ELongMul (a b : expr)
 | ESizeMul (a b : expr)                (* a * b carried out in size_t (64 bits, wraps) on two non-negative operands *)
 | EMemsetCells (p n : expr)            (* memset(p, 0, n) on an array of pointers: the n / 8 cells from p on become zero (null); the value is p *)
+| ECallocBytes (n : expr)              (* calloc(n, 1) assigned to a char pointer: like malloc(n), the fresh block holding zeros *)
 | EReadItems (p sz n : expr).          (* fread(p, sz, n, f) into the caller's memory (stream separate from the memory), sz > 0: as many bytes as the stream still has, at most sz * n; the number of complete items *)               (* (long)a * b on two ints: the product in 64 bits, which always holds it; only ever the offset of an fseek *)
 
 (* an argument of a call: a value; the address of an int local (&x); or a pointer parameter p of the
@@ -552,6 +553,25 @@ Fixpoint eval (e : expr) (s : state) : option (val * state) :=
           if k =? 0 then match set_var fail_var (VInt (-1)) s1 with Some s2 => Some (VNull, s2) | None => None end
           else if 0 <? k then
             match set_var fail_var (VInt (k - 1)) {| vars := vars s1; inb := inb s1 ++ repeat junk (Z.to_nat n); outb := outb s1 |} with
+            | Some s2 => Some (VPtr RIn (Z.of_nat (List.length (inb s1))), s2) | None => None end
+          else ok
+        | Some _ => None
+        | None => ok
+        end
+      else None
+    | _ => None
+    end
+  | ECallocBytes a =>
+    match eval a s with
+    | Some (VInt n, s1) =>
+      if 0 <=? n then
+        let ok := Some (VPtr RIn (Z.of_nat (List.length (inb s1))),
+                        {| vars := vars s1; inb := inb s1 ++ repeat 0 (Z.to_nat n); outb := outb s1 |}) in
+        match lookup fail_var (vars s1) with
+        | Some (VInt k) =>
+          if k =? 0 then match set_var fail_var (VInt (-1)) s1 with Some s2 => Some (VNull, s2) | None => None end
+          else if 0 <? k then
+            match set_var fail_var (VInt (k - 1)) {| vars := vars s1; inb := inb s1 ++ repeat 0 (Z.to_nat n); outb := outb s1 |} with
             | Some s2 => Some (VPtr RIn (Z.of_nat (List.length (inb s1))), s2) | None => None end
           else ok
         | Some _ => None
